@@ -506,7 +506,9 @@ def apply(ents, st, kind, site, rng_val=0):
         st["e"][site]["value"] = (["ZERO", "0", "1.5", "+12", "ZEROS"] if num else
                                   ["SPACES", "'A'", "'A B.C'", "\"Q\"", "'X, Y'",
                                    # lower-case words that only LOOK like reserved words: the decoder's second parse is case-sensitive
-                                   "'binary'", "'comp-3 rate'", "'pic x(9)'", "'display it'", "\"usage is comp\""])[v % (5 if num else 10)]
+                                   "'binary'", "'comp-3 rate'", "'pic x(9)'", "'display it'", "\"usage is comp\"",
+                                   # what other dialects and tools read as the start of a comment or as an operator is text here
+                                   "'*>'", "'<*>'", "'A*>B'", "'*'", "'/'", "'#'", "'--'", "'$%&'", "\"*> X\"", "'A-B'"])[v % (5 if num else 20)]
         st["e"][site]["value_is"] = bool(v & 1)
     elif kind == "value_kw":
         st["e"][site]["value"] = ["'BINARY'", "'COMP-3'", "'PIC X(9)'", "'USAGE COMP'"][v % 4]
@@ -515,7 +517,7 @@ def apply(ents, st, kind, site, rng_val=0):
         st["e"][site[0]]["just_word"] = ["JUSTIFIED", "JUST"][v % 2]
         st["e"][site[0]]["blank_when"] = bool(v % 2)
     elif kind == "cond88":
-        st["e"][site]["cond"] = [["IS-A", "'A'"], ["IS-ONE", "1"]][: 1 + v % 2]
+        st["e"][site]["cond"] = [[["IS-A", "'A'"], ["IS-ONE", "1"]], [["IS-STAR", "'*>'"], ["IS-A", "'A'"]]][(v // 2) % 2][: 1 + v % 2]
     elif kind == "filler_word":
         st["e"][site]["filler_word"] = False
     return st
